@@ -842,8 +842,8 @@ def pinned_queries(ctx, rng, tries):
             if z3.is_bool(sym):
                 continue
             kind = ctx.input_kind.get(name, "real")
-            if kind.startswith("w:"):
-                continue
+            if kind.startswith("w:") or kind == "lu":
+                continue          # Weierstrass symbols are set consistently below; LU-stub outputs are left to the solver
             val = _rand_value(rng, kind)
             pins.append(sym == term(val))
             subst.append((sym, term(val)))
